@@ -80,6 +80,8 @@ func (f c16File) source() string {
 		return fmt.Sprintf(`I%d[{{include %q}}]`, f.version, c16Names[f.dep])
 	case "iie":
 		return fmt.Sprintf(`X%d[{{if includeIfExists(%q)}}+{{else}}-{{end}}]`, f.version, c16Names[f.dep])
+	case "iief": // the same, and then the execution fails
+		return fmt.Sprintf(`F%d[{{if includeIfExists(%q)}}+{{else}}-{{end}}]{{ noSuchVariable }}`, f.version, c16Names[f.dep])
 	}
 	return fmt.Sprintf("T%d", f.version)
 }
@@ -144,8 +146,8 @@ func genC16(t *rapid.T) c16Case {
 		case k <= 3:
 			op.Op = "set"
 			op.Ext = rapid.IntRange(0, len(c.Exts)-1).Draw(t, "ext")
-			op.Variant = rapid.SampledFrom([]string{"text", "text", "text", "bad", "ext", "inc", "iie"}).Draw(t, "variant")
-			if op.Variant == "ext" || op.Variant == "inc" || op.Variant == "iie" {
+			op.Variant = rapid.SampledFrom([]string{"text", "text", "text", "bad", "ext", "inc", "iie", "iief"}).Draw(t, "variant")
+			if op.Variant == "ext" || op.Variant == "inc" || op.Variant == "iie" || op.Variant == "iief" {
 				if op.Name == len(c16Names)-1 {
 					op.Variant = "text"
 				} else {
@@ -258,6 +260,11 @@ func (m *c16Model) render(n int, depth int) (string, bool) {
 				return "", false
 			}
 			return fmt.Sprintf("I%d[%s]", f.version, s), true
+		case "iief":
+			if df, ok := m.currentPath(f.dep); ok && m.faults[df] != "" {
+				m.indet = true
+			}
+			return "", false // whatever it finds, this one fails when it is executed
 		case "iie":
 			if !m.exists(f.dep) {
 				return fmt.Sprintf("X%d[-]", f.version), true
@@ -718,7 +725,7 @@ func (m *c16Model) markIncludes(n, depth int) {
 
 func TestC16(t *testing.T) {
 	core.Run(t, "C16",
-		"histories (2-20 steps) of loader edits (set/delete of name+ext with text/unparsable/extends/include/includeIfExists content), injected loader faults (Open fails, reader fails midway) and repairs, GetTemplate, Set.Parse with extends/import (absolute and relative names; also under the very name of the template it extends), Execute, Execute of a template object kept from an earlier lookup, over 7 names (two pairs differing in case only); configurations development mode x default/recording Cache (also one that admits nothing: Put recorded and dropped) x 8 extension lists (dotted and dotless); also: four spellings of the development mode option (DevelopmentMode(b), InDevelopmentMode() or nothing, and two contradicting ones of which the later counts); a second Set over the same Loader and Cache object asking for what the first one remembered; oracle = model of what must/may be remembered asserted on Loader/Cache traces and pointer identity; non-trivial = edit after load, fault-then-repair-then-lookup, or the same name requested >=3 times",
+		"histories (2-20 steps) of loader edits (set/delete of name+ext with text/unparsable/extends/include/includeIfExists content), injected loader faults (Open fails, reader fails midway) and repairs, GetTemplate, Set.Parse with extends/import (absolute and relative names; also under the very name of the template it extends), Execute, Execute of a template object kept from an earlier lookup, over 7 names (two pairs differing in case only); configurations development mode x default/recording Cache (also one that admits nothing: Put recorded and dropped) x 8 extension lists (dotted and dotless); also: four spellings of the development mode option (DevelopmentMode(b), InDevelopmentMode() or nothing, and two contradicting ones of which the later counts); a second Set over the same Loader and Cache object asking for what the first one remembered; round 10: a template that asks includeIfExists and then fails when executed; oracle = model of what must/may be remembered asserted on Loader/Cache traces and pointer identity; non-trivial = edit after load, fault-then-repair-then-lookup, or the same name requested >=3 times",
 		genC16, judgeC16)
 }
 
